@@ -1,5 +1,6 @@
 import Driver.Common
 import Cppcheck.Model.ScopeProg
+import Cppcheck.Model.ClassVars
 open Cppcheck.Wire Cppcheck.VarMap
 
 /-
@@ -145,8 +146,48 @@ def pOp (t : String) : Option Op :=
 
 def ids (l : List VId) : String := if l.isEmpty then "-" else " ".intercalate (l.map toString)
 
+/-- `cls <n> {<nb> b.. <no> {x id}..}* <i> <x>` : the member table of setVarIdPass2 and C++ member lookup -/
+def pPairs : Nat → List String → Option (List (VName × VId) × List String)
+  | 0, ts => some ([], ts)
+  | n + 1, a :: b :: r =>
+    match a.toNat?, b.toNat?, pPairs n r with
+    | some x, some i, some (ps, r') => some ((x, i) :: ps, r')
+    | _, _, _ => none
+  | _, _ => none
+
+def pClasses : Nat → List String → Option (List ClassDecl × List String)
+  | 0, ts => some ([], ts)
+  | n + 1, ts =>
+    match pNames ts with
+    | some (bs, r1) =>
+      match pNat r1 with
+      | some (no, r2) =>
+        match pPairs no r2 with
+        | some (own, r3) =>
+          match pClasses n r3 with
+          | some (cs, r4) => some (⟨bs, own⟩ :: cs, r4)
+          | none => none
+        | none => none
+      | none => none
+    | none => none
+
+def mresStr : MRes → String
+  | .notFound => "notfound"
+  | .found v => s!"found:{v}"
+  | .ambiguous => "ambiguous"
+
 def step (line : String) : String :=
   match fields line with
+  | "cls" :: ts =>
+    match pNat ts with
+    | some (n, r) =>
+      match pClasses n r with
+      | some (cs, [i, x]) =>
+        match i.toNat?, x.toNat? with
+        | some i, some x => s!"T {classVarId cs i x} | L {mresStr (memberLookup cs (i + 1) i x)} | wf {boolStr (classesWF cs)} | single {boolStr (singleInheritance cs)}"
+        | _, _ => "bad-cls"
+      | _ => "bad-cls"
+    | none => "bad-cls"
   | "prog" :: ts =>
     match pProg ts with
     | some p =>
